@@ -46,7 +46,8 @@ EPS = 0.001
 KINDS = ["match_result", "match_null", "match_error", "match_scalar", "same_id_request",
          "same_id_request_params", "other_response", "other_request", "notification",
          "progress", "batch_with_match", "other_error", "int_twin", "match_result2",
-         "batch_of_one_match", "batch_of_one_error", "batch_empty"]
+         "batch_of_one_match", "batch_of_one_error", "batch_empty",
+         "match_empty_obj", "match_empty_list", "match_zero", "match_false", "match_empty_str"]
 
 
 # ids of distractor responses are drawn from the ids that other calls of the same process use as their own
@@ -63,6 +64,10 @@ def _wire(kind: str, rid: Any, n: int) -> Any:
         return {"jsonrpc": "2.0", "id": rid, "result": {"tag": f"second-{n}"}}
     if kind == "match_null":
         return {"jsonrpc": "2.0", "id": rid, "result": None}
+    if kind in ("match_empty_obj", "match_empty_list", "match_zero", "match_false", "match_empty_str"):
+        # falsy payloads: still the payload
+        return {"jsonrpc": "2.0", "id": rid, "result": {"match_empty_obj": {}, "match_empty_list": [], "match_zero": 0,
+                                                        "match_false": False, "match_empty_str": ""}[kind]}
     if kind == "match_scalar":
         return {"jsonrpc": "2.0", "id": rid, "result": [1, "two", None]}
     if kind == "match_error":
@@ -274,6 +279,11 @@ def check_history(ctx, case: Dict[str, Any], obs: Dict[str, Any], *, timeout: fl
         # independently of R: the returned object must not be (the dump of) any other message
         if okind != "return":
             return
+        # a value that is exactly what the winning response carried is not attributed to a foreign message that happens
+        # to carry an equal payload (two messages may both hold {} or [])
+        for cand in (R, R_amb):
+            if cand is not None and _expected_payload_ok(cand["wire"], outcome)[0]:
+                return
         for a in arrived:
             w = a["wire"]
             wl = w if isinstance(w, list) else [w]
